@@ -1,5 +1,5 @@
 SPECIFICATION Spec
-CONSTANTS StateVals = {0, 1, 2, 3, 4, 5, 6, 255, 256, 258, 259}  ErrorVals = {0, 1, 2, 3, 4, 5, 6, 7, 8, 255, 256, 257}
+CONSTANTS StateVals = {0, 2, 4, 6, 255, 256, 258, 259}  ErrorVals = {0, 1, 2, 3, 4, 5, 6, 7, 8, 255, 256, 257}
 INVARIANT TypeOK
 INVARIANT ErrorNeverSuccess
 INVARIANT WrongStateNeverSuccess
